@@ -48,10 +48,11 @@ def cross_cond(rng, doc):
         return L("equal_to", "none", [{"a": p}])                                    # nested in a mapping argument
     if r < 0.94:
         return L("equal_to", "length", [p])
-    if r < 0.97:
+    if r < 0.985:
         # a LITERAL mapping whose key looks like a path spec (written with the escaped key in specs)
         return L(rng.choice(["equal_to", "not_equal_to", "in_"]), "none",
-                 [rng.choice([{"path": ["a"]}, {"path.length": ["a", 0], "b": 1}, {"a": {"path": [1]}}])])
+                 [rng.choice([{"path": ["a"]}, {"path.length": ["a", 0], "b": 1}, {"a": {"path": [1]}},
+                              {"b": 1, "path": ["a"]}, {"mode": "x", "path.first": ["a"], "z": None}])])
     return ("and", L("equal_to", "none", [p]), L("less_than", "none", [path_arg(rng, doc)]))
 
 
